@@ -53,7 +53,7 @@ Follow2 ==
     LET o == heap[3] IN AEvaluate(3, LatticeSeq(NumD(o)), FALSE, "evaluate_ln")
 
 \* two-density operations: KL divergence (R equal or one side single) and update(idx, q)
-TwoOps == Ops \cap {"kl", "update"}
+TwoOps == Ops \cap {"kl", "update", "update_neg"}
 IdxSeqs(R, m) == {t \in DistinctSeqs(R) : Len(t) = m}
 
 Op2 ==
@@ -61,6 +61,8 @@ Op2 ==
     \/ "kl" \in Ops /\ (NumR(p1) = NumR(q) \/ NumR(p1) = 1 \/ NumR(q) = 1) /\ AKL(1, 2)
     \/ "kl" \in Ops /\ NumR(q) = 1 /\ AKL(1, 1)                  \* KL(p, p) = 0
     \/ "update" \in Ops /\ NumR(q) <= NumR(p1) /\ \E idx \in IdxSeqs(NumR(p1), NumR(q)) : AUpdate(1, idx, 2)
+    \/ "update_neg" \in Ops /\ NumR(q) <= NumR(p1) /\ \E idx \in IdxSeqs(NumR(p1), NumR(q)) :
+           \E neg \in {1..Len(idx), {k \in 1..Len(idx) : k % 2 = 1}} : AUpdateN(1, idx, 2, neg)
 
 Next ==
     IF TwoOps = {}
